@@ -1042,6 +1042,15 @@ def _p_cons_obj(eng, args, p):
     return VList(t=z3.Concat(z3.Unit(xt), eng.list_term(args[1])), elem="obj")
 
 
+def _p_nil_bytes(eng, args, p):
+    return VList(t=z3.Empty(SeqSeq), elem="bytes")
+
+
+def _p_snoc_bytes(eng, args, p):
+    """snoc_bytes(xs, b): the list xs with the octet string b appended (what list.append does)."""
+    return VList(t=z3.Concat(eng.list_term(args[0]), z3.Unit(args[1].t)), elem="bytes")
+
+
 def _p_cat_obj(eng, args, p):
     return VList(t=z3.Concat(eng.list_term(args[0]), eng.list_term(args[1])), elem="obj")
 
@@ -1051,6 +1060,6 @@ def _p_ids_below(eng, args, p):
     return VBool(z3.ForAll([x], z3.Implies(z3.Select(args[0].t, x), z3.And(x >= 1, x < eng.as_int(args[1])))))
 
 
-SPEC_PRIMS = {"or_empty": _p_or_empty, "unutf8": _p_unutf8, "utf8": _p_utf8, "ids_below": _p_ids_below, "nil_obj": _p_nil_obj, "cons_obj": _p_cons_obj, "cat_obj": _p_cat_obj, "cat": _p_cat, "seq1": _p_seq1, "empty": _p_empty, "take": _p_take, "drop": _p_drop,
+SPEC_PRIMS = {"nil_bytes": _p_nil_bytes, "snoc_bytes": _p_snoc_bytes, "or_empty": _p_or_empty, "unutf8": _p_unutf8, "utf8": _p_utf8, "ids_below": _p_ids_below, "nil_obj": _p_nil_obj, "cons_obj": _p_cons_obj, "cat_obj": _p_cat_obj, "cat": _p_cat, "seq1": _p_seq1, "empty": _p_empty, "take": _p_take, "drop": _p_drop,
               "is_bytes": _p_is_bytes, "empty_set": _p_empty_set, "set_add": _p_set_add, "set_del": _p_set_del,
               "subset": _p_subset}
